@@ -273,6 +273,15 @@ func (b *Batch) flushStagedAndUpdateFile() error {
 
 // 刷新缓存
 func (b *Batch) flushStaged() error {
+	// 活跃文件的剩余空间不足以容纳暂存数据及完成标识记录时, 先切换活跃文件
+	// 否则一次刷新可使活跃文件增长至接近容量上限的两倍
+	if len(b.staged) > 0 && b.db.activeFile.Size() > 0 &&
+		b.db.activeFile.Size()+b.cachedDataSize+maxFinRecord > b.db.options.DataFileSize {
+		if err := b.db.sync(); err != nil {
+			return err
+		}
+	}
+
 	// 顺序遍历暂存数据依次追加磁盘
 	for _, record := range b.staged {
 		record.BatchID = uint64(b.batchID)
